@@ -278,3 +278,11 @@ Proof.
       try (vm_compute; repeat constructor).
   - unfold strict_cablelabs. split; [|split; [|split; [|split]]]; intro H; vm_compute in H; discriminate H.
 Qed.
+
+Lemma canon_cablelabs_flags e mask : cons_cablelabs e -> flag (canon_cablelabs e) mask = flag e mask.
+Proof.
+  intros (Htag & HL & _). unfold flag, canon_cablelabs. cbn [DataFieldLength DataFlags].
+  replace (DataFieldLength e =? 0) with false by (symmetry; apply N.eqb_neq; exact HL).
+  replace (len (cablelabs_body e) =? 0) with false; [reflexivity|].
+  symmetry. apply N.eqb_neq. unfold cablelabs_body. cbn [app to_be32]. rewrite !len_cons. lia.
+Qed.
